@@ -269,6 +269,35 @@ impl Prop for C11 {
             let pa: Vec<String> = p.iter().map(|i| commented[*i].clone()).collect();
             out.push(mk("perm", "commented-assignments:n=5:all".into(), vec![cbase.clone()], vec![module("M", "AUTOMATIC TAGS", "", &pa)]));
         }
+        // every way an assignment can end (each built-in type keyword, constrained / tagged forms, references, values) in
+        // front of and behind an assignment with a comment of its own: the comment belongs to the assignment it precedes,
+        // whatever the assignment before it ends in.  Line and block comments; both orders of the pair; three in a row.
+        let endings: Vec<&str> = vec![
+            "X ::= BOOLEAN", "X ::= NULL", "X ::= INTEGER", "X ::= INTEGER (0..7)", "X ::= INTEGER { one(1) }", "X ::= REAL", "X ::= ENUMERATED { p, q }",
+            "X ::= BIT STRING", "X ::= BIT STRING { f(0) }", "X ::= BIT STRING (SIZE (8))", "X ::= OCTET STRING", "X ::= OCTET STRING (SIZE (1..4))",
+            "X ::= OBJECT IDENTIFIER", "X ::= RELATIVE-OID", "X ::= EXTERNAL", "X ::= EMBEDDED PDV", "X ::= UTCTime", "X ::= GeneralizedTime",
+            "X ::= ObjectDescriptor", "X ::= ANY", "X ::= UTF8String", "X ::= IA5String", "X ::= IA5String (SIZE (2))", "X ::= IA5String (FROM (\"ab\"))",
+            "X ::= NumericString", "X ::= PrintableString", "X ::= VisibleString", "X ::= ISO646String", "X ::= BMPString", "X ::= UniversalString",
+            "X ::= TeletexString", "X ::= T61String", "X ::= GraphicString", "X ::= GeneralString", "X ::= VideotexString",
+            "X ::= SEQUENCE { a BOOLEAN }", "X ::= SET { a BOOLEAN }", "X ::= CHOICE { a BOOLEAN, b NULL }", "X ::= SEQUENCE OF BOOLEAN", "X ::= SET OF INTEGER",
+            "X ::= SEQUENCE OF EXTERNAL", "X ::= SET OF RELATIVE-OID", "X ::= SEQUENCE OF OBJECT IDENTIFIER", "X ::= SEQUENCE (SIZE (1..2)) OF NULL",
+            "X ::= [5] BOOLEAN", "X ::= [APPLICATION 2] IMPLICIT EXTERNAL", "X ::= [3] EXPLICIT RELATIVE-OID", "X ::= [1] OCTET STRING",
+            "X ::= Other", "X ::= Other (0..3)", "X ::= SEQUENCE { a EXTERNAL }", "X ::= SEQUENCE { a RELATIVE-OID OPTIONAL }", "X ::= CHOICE { a EXTERNAL, b RELATIVE-OID }",
+            "x INTEGER ::= 5", "x BOOLEAN ::= TRUE", "x OCTET STRING ::= 'AB'H", "x OBJECT IDENTIFIER ::= { 1 2 3 }", "x RELATIVE-OID ::= { 4 5 }", "x UTF8String ::= \"t\"", "x Other ::= 2", "x NULL ::= NULL",
+        ];
+        for e in &endings {
+            for (cs, comment) in [("line", "-- about the next one\n"), ("block", "/* about the next one */ "), ("line-closed", "-- about the next one -- ")] {
+                let other = "Other ::= INTEGER (0..9)".to_string();
+                let y = format!("{comment}Yy ::= SEQUENCE {{ m BOOLEAN }}");
+                let z = format!("{comment}Zz ::= ENUMERATED {{ only }}");
+                let x = e.to_string();
+                let base = module("M", "AUTOMATIC TAGS", "", &[other.clone(), x.clone(), y.clone(), z.clone()]);
+                for (oi, order) in [vec![&other, &y, &x, &z], vec![&other, &y, &z, &x], vec![&x, &y, &other, &z], vec![&z, &x, &y, &other]].iter().enumerate() {
+                    let pa: Vec<String> = order.iter().map(|s| s.to_string()).collect();
+                    out.push(mk("perm", format!("ending-before-comment:{cs}:{e}:order={oi}"), vec![base.clone()], vec![module("M", "AUTOMATIC TAGS", "", &pa)]));
+                }
+            }
+        }
         // two modules of the same name (a specification split over two files) whose headers differ in tagging default,
         // extensibility and imports, next to a third module: every order, in one source and as separate sources
         let s1 = module("Split-Module", "AUTOMATIC TAGS", "IMPORTS T3 FROM Three;\n", &["Alpha ::= SEQUENCE { a INTEGER, b T3 OPTIONAL }".into(), "AlphaCh ::= CHOICE { x NULL, y BOOLEAN }".into()]);
